@@ -136,8 +136,10 @@ def _explainer_runs(tier, seed):
     def model(x):
         return {'output': 2.0 * x['a'] - 1.0 * x['b'] + 0.0 * x['c']}
     for kind in ('pfi', 'sage'):
-        for dynamic, alpha in ((False, 0.001), (True, 0.05)):
+        for dynamic, alpha, n_inner in ((False, 0.001, 2), (True, 0.05, 2), (True, 0.001, 1), (False, 0.001, 1), (True, 0.05, 1)):
             for lname, lf in losses.items():
+                if n_inner == 1 and lname not in ('offset1e9', 'offset1e6'):
+                    continue        # one inner sample: every contribution is a difference of two nearby floats, i.e. EXACT - tight bound
                 log = []
 
                 def loss(y, p, lf=lf, log=log):
@@ -152,13 +154,14 @@ def _explainer_runs(tier, seed):
                         return super().impute(feature_subset, x_i, n_samples)
                 E = IncrementalPFI if kind == 'pfi' else IncrementalSage
                 ex = E(model, loss, list(names), storage=st, imputer=Rec(model, 'joint', st), smoothing_alpha=alpha,
-                       n_inner_samples=2, dynamic_setting=dynamic)
+                       n_inner_samples=n_inner, dynamic_setting=dynamic)
                 rng = random.Random(seed)
                 random.seed(seed)
                 np.random.seed(seed)
                 exact = {f: Fraction(0) for f in names}
                 cnt = 0
                 maxloss = 0.0
+                maxc = 0.0
                 a = Fraction(alpha)
                 bad = None
                 for t in range(n_obs):
@@ -200,17 +203,24 @@ def _explainer_runs(tier, seed):
                     cnt += 1
                     for f in names:
                         exact[f] = exact[f] + (contrib[f] - exact[f]) / cnt if not dynamic else (1 - a) * exact[f] + a * contrib[f]
-                    bound = 64 * eps * maxloss / alpha if dynamic else 64 * cnt * eps * maxloss
+                    # forming a contribution from two loss values costs about eps * max|loss| (unavoidable, "the same inputs" are
+                    # the loss values); the tracker then adds eps * max|contribution| / alpha (smoothing) or n * eps * max|contribution|
+                    maxc = max([maxc] + [abs(float(v)) for v in contrib.values()])
+                    bound = 16 * (eps * maxloss + (eps * maxc / alpha if dynamic else cnt * eps * maxc))
+                    if n_inner == 1:
+                        # no mean over inner samples: the contributions l - l' of nearby floats are exact (Sterbenz), so the only
+                        # rounding is the tracker's own
+                        bound = 16 * (eps * maxc / alpha if dynamic else cnt * eps * maxc) + 4 * eps * maxc
                     for f in names:
                         g = float(got[f])
                         if not math.isfinite(g) or abs(Fraction(g) - exact[f]) > Fraction(bound):
-                            bad = (f'{kind} dynamic={dynamic} loss={lname}: importance[{f}] = {g!r} after {t + 1} observations, exact arithmetic on the '
+                            bad = (f'{kind} dynamic={dynamic} alpha={alpha} n_inner={n_inner} loss={lname}: importance[{f}] = {g!r} after {t + 1} observations, exact arithmetic on the '
                                    f'same loss values gives {float(exact[f])!r} (bound {bound:.3g})')
                             break
                     if bad:
                         break
                 evals += 1
-                distinct.add((kind, dynamic, lname))
+                distinct.add((kind, dynamic, alpha, n_inner, lname))
                 if bad:
                     fails.append({'key': 'explainer_float', 'summary': bad, 'observed': bad})
                 elif lname == 'offset1e9' and kind == 'pfi':
@@ -219,7 +229,7 @@ def _explainer_runs(tier, seed):
     return {'name': 'explainer_float_vs_exact', 'evaluations': evals, 'distinct_nontrivial': len(distinct),
             'rule': 'IncrementalPFI / IncrementalSage (static: running mean, dynamic: smoothing 0.05) x losses with offsets 1e6, 1e9 and '
                     'scales 1e-8, 1, 1e8; the contributions are rebuilt exactly (Fractions) from the recorded loss and imputer calls and fed to '
-                    'the exact tracker recurrences; bounds 64 n eps max|loss| (running mean), 64 eps max|loss| / alpha (smoothing); distinct = '
+                    'the exact tracker recurrences; bound 16 (eps max|loss| + eps max|contribution| / alpha) (smoothing) resp. 16 (eps max|loss| + n eps max|contribution|) (running mean); distinct = '
                     '(explainer, mode, loss family)', 'bound': f'{n_obs} observations, 3 features', 'sample': sample, 'failures': fails}
 
 
